@@ -12,7 +12,7 @@ SP = os.path.join(RUN, "sp")
 
 def hx(b):
     if isinstance(b, str):
-        b = b.encode()
+        b = os.fsencode(b)
     return b.hex()
 
 
@@ -194,6 +194,17 @@ def fam_faults(seed, big):
                         sc["class"] = "fault-child-detached"
                     out.append(sc)
                     i += 1
+    # the parent runs with standard descriptors closed: the launch-status pipe is created on -- and must be moved away
+    # from -- the numbers where the child's streams are installed; a child-side failure must still be reported
+    for closed in ([2], [0, 2], [1, 2], [0, 1], [0, 1, 2]):
+        for (a, b, c) in (("pipe", "pipe", "pipe"), ("none", "none", "pipe"), ("none", "pipe", "merge"), ("file:i", "file:o", "file:e")):
+            if any(x == "none" and k in closed for k, x in enumerate((a, b, c))):
+                continue
+            for (kind, er) in (("execve", 2), ("chdir", 13)):
+                out.append({"id": "f%d-closed-%s" % (i, kind), "class": "fault-closed-std", "argv": vargv(), "stdin": a,
+                            "stdout": b, "stderr": c, "closed_std": closed, "cwd": hx(SP),
+                            "fault": {"kind": kind, "nth": 1, "side": 1, "errno": er}})
+                i += 1
     # natural failures
     noexec = os.path.join(SP, "noexec")
     with open(noexec, "w") as f:
@@ -305,6 +316,9 @@ def fam_path(seed, big):
                 kinds.append(kinds[k[1]])
                 continue
             name = "d%d" % j
+            if k.startswith("nonutf8-"):
+                name = "caf\udce9-%d" % j   # the byte 0xE9 alone: not UTF-8 (surrogate-escaped for the file system)
+                k = k[8:]
             if k.startswith("long-"):
                 # longer than std's 384-byte on-stack buffer for C strings
                 name = os.path.join("L" * 200 + str(j), "M" * 230)
@@ -370,6 +384,10 @@ def fam_path(seed, big):
     mk(["long-missing", "ok"], "cmd7")
     mk(["missing", "long-ok"], "cmd7")
     mk(["unreadable"], "cmd8")
+    # PATH entries that are not valid UTF-8, before and at the directory where the command is found
+    mk(["nonutf8-missing", "ok"], "cmd12")
+    mk(["nonutf8-ok"], "cmd12")
+    mk(["nonutf8-noexec", "nonutf8-missing", "nonutf8-ok"], "cmd12")
     # executable override goes through the same lookup
     mk(["missing", "ok"], "cmd9", extra={"exe_is_cmd": True})
     # the search uses the PARENT's PATH even when the child gets an environment with another PATH
